@@ -201,6 +201,9 @@ structure Obs where
   sibling : Option String := none
   /-- the server polled its `incoming` stream again after the stream had ended -/
   repolled : Bool := false
+  /-- after the serve future had resolved the server still held a connection it had taken from `incoming` but
+  never accepted (a TLS handshake still in flight - seed C13g) -/
+  held : Bool := false
 deriving Repr
 
 def idx? (s : String) : Option (Option Nat) := if s = "-" then some none else s.toNat?.map some
@@ -210,7 +213,8 @@ def parseObs (obs : List String) : Option Obs :=
   | r :: rest0 =>
     let sibTok := rest0.find? (·.startsWith "z:")
     let repolled := rest0.contains "repoll"
-    let rest := rest0.filter fun t => !(t.startsWith "z:") && t != "repoll"
+    let held := rest0.contains "held"
+    let rest := rest0.filter fun t => !(t.startsWith "z:") && t != "repoll" && t != "held"
     match (r.drop 1).toString.splitOn ":" with
     | [ra, op, _] =>
       let resolvedAt := (idx? ra).getD none
@@ -246,7 +250,7 @@ def parseObs (obs : List String) : Option Obs :=
           | _ => none) (some ([], []))
       match go with
       | some (cs, ks) => some { resolvedAt := resolvedAt, openAtResolve := openAt, conns := cs, calls := ks,
-                                sibling := sibTok, repolled := repolled }
+                                sibling := sibTok, repolled := repolled, held := held }
       | none => none
     | _ => none
   | [] => none
@@ -651,7 +655,9 @@ def verdictOf (sc : Script) (o : Obs) : String :=
      ("sibling-unaffected", !sc.sibling || (match o.sibling with
         | some tok => siblingVerdict tok | none => false)),
      -- a `Stream` that has yielded `None` is not polled again
-     ("incoming-not-polled-after-end", !o.repolled)]
+     ("incoming-not-polled-after-end", !o.repolled),
+     -- "resolves only after all connections have closed" covers connections still in their TLS handshake too
+     ("no-connection-held-after-resolve", !o.held)]
   let shut : List (String × Bool) :=
     if sc.graceful then
       [("no-accept-after-signal", noAcceptAfterSignal (connViews none)),
